@@ -8,7 +8,7 @@ Headline statements (helper lemmas: `Proofs/KeyMirror.lean`, `Proofs/MediaRT.lea
 * `media_write_parse` — **for every media playlist value the parser can produce** (from any typed
   line list, entry points `try_from` / `from_str` / `builder().allowable_excess_duration(e).parse`)
   whose keys come from text (`LinesNoNum`: no "derived" IV in the input, which text cannot
-  express) and that is free of the two recorded shapes `NoK2` / `NoK3`, the writer produces lines
+  express) and that is free of the recorded shape `NoK2` (a key line between a segment's map and its URI), the writer produces lines
   and the parser's state machine run on those lines returns **exactly the same value**: same
   playlist-level values, segments, numbers, URIs, durations, titles, byte ranges, flags, date ranges,
   maps with their key coverage, per-segment keys with their effective IVs, unknown tags.
@@ -17,8 +17,9 @@ Headline statements (helper lemmas: `Proofs/KeyMirror.lean`, `Proofs/MediaRT.lea
 * `media_fixed_point` — the second serialisation is byte-identical.
 * `key_mirror` — the stateful heart: after the lines the writer emits for one key, the parser's
   keys in effect equal the writer's announced set.
-* `k2_counterexample`, `k3_counterexample` — the two recorded histories on which the statement
-  without `NoK2` / `NoK3` is false; `control_roundtrip` — the same shapes repaired.
+* `k2_counterexample` — the recorded history on which the statement without `NoK2` is false;
+  `k3_repaired` — the former finding K3 round-trips since the writer prints the reset;
+  `control_roundtrip` — non-vacuity.
 -/
 namespace Hls.C03
 open Hls C06 C03K
@@ -32,41 +33,43 @@ theorem key_mirror (W : List ExtXKey) (s : KeySpec) (key : ExtXKey) (out : List 
 
 /-- **L2 round trip for every parser-producible value** -/
 theorem media_write_parse (e : Option Nat) (ls : List Line) (p : MediaPlaylist)
-    (h : assembleMedia (bE e) ls = .ok p) (hiv : LinesNoNum ls) (hk2 : NoK2 p) (hk3 : NoK3 p) :
+    (h : assembleMedia (bE e) ls = .ok p) (hiv : LinesNoNum ls) (hk2 : NoK2 p) :
     ∃ lines, p.writeLines = .ok lines ∧ assembleMedia (bE e) lines = .ok p :=
-  write_parse_wf p e (parsed_wf e ls p h hiv hk2) hk3
+  write_parse_wf p e (parsed_wf e ls p h hiv hk2) (parsed_persist e ls p h hiv)
 
 /-- the same for any well-formed value, parsed or built -/
-theorem media_write_parse_wf (p : MediaPlaylist) (e : Option Nat) (wf : WF p e) (hk3 : NoK3 p) :
+theorem media_write_parse_wf (p : MediaPlaylist) (e : Option Nat) (wf : WF p e) (hk3 : Persist [] p.segments) :
     ∃ lines, p.writeLines = .ok lines ∧ assembleMedia (bE e) lines = .ok p :=
   write_parse_wf p e wf hk3
 
 /-- **text round trip**: for every accepted text (keys taken from text never carry a derived IV:
-`text_lines_noNum`), free of the K2 / K3 shapes, `to_string()` then the same entry point gives
+`text_lines_noNum`), free of the K2 shape, `to_string()` then the same entry point gives
 back the same value — provided each written line's text classifies back to the line (`LineRT`) -/
 theorem media_roundtrip (e : Option Nat) (s : Str) (p : MediaPlaylist)
-    (h : parseMediaWith (bE e) s = .ok p) (hk2 : NoK2 p) (hk3 : NoK3 p)
+    (h : parseMediaWith (bE e) s = .ok p) (hk2 : NoK2 p)
     (hrt : ∀ lines, p.writeLines = .ok lines → ∀ l ∈ lines, LineRT l) :
     ∃ text, p.show = .ok text ∧ parseMediaWith (bE e) text = .ok p := by
   obtain ⟨rest, ls, _, h2, h3⟩ := parseMediaWith_ok (bE e) s p h
-  obtain ⟨lines, w1, w2⟩ := media_write_parse e ls p h3 (text_lines_noNum rest ls h2) hk2 hk3
+  obtain ⟨lines, w1, w2⟩ := media_write_parse e ls p h3 (text_lines_noNum rest ls h2) hk2
   refine ⟨pfxM3u ++ ['\n'] ++ renderLines lines, by simp [MediaPlaylist.show, w1], ?_⟩
   rw [parseMedia_of_written (bE e) lines (hrt lines w1)]
   exact w2
 
 /-- **serialisation is a fixed point after one round** -/
 theorem media_fixed_point (e : Option Nat) (s : Str) (p p' : MediaPlaylist) (text : Str)
-    (h : parseMediaWith (bE e) s = .ok p) (hk2 : NoK2 p) (hk3 : NoK3 p)
+    (h : parseMediaWith (bE e) s = .ok p) (hk2 : NoK2 p)
     (hrt : ∀ lines, p.writeLines = .ok lines → ∀ l ∈ lines, LineRT l)
     (ht : p.show = .ok text) (h' : parseMediaWith (bE e) text = .ok p') : p'.show = p.show := by
-  obtain ⟨text2, t1, t2⟩ := media_roundtrip e s p h hk2 hk3 hrt
+  obtain ⟨text2, t1, t2⟩ := media_roundtrip e s p h hk2 hrt
   rw [ht] at t1; cases t1
   rw [t2] at h'; cases h'; rfl
 
-/-- the two recorded shapes on which the statement without `NoK2` / `NoK3` is false -/
-theorem k3_counterexample : (assembleMedia {} k3Lines).isOk = true ∧ (writeThenParse k3Lines).isOk = true ∧
-    writeThenParse k3Lines ≠ assembleMedia {} k3Lines := C03K.k3_counterexample
+/-- the former finding K3 (`KEY a, KEY b(f), segment, KEY NONE, KEY a, segment`): since the `fix:`
+that makes the writer print the reset, it round-trips -/
+theorem k3_repaired : (assembleMedia {} k3Lines).isOk = true ∧ writeThenParse k3Lines = assembleMedia {} k3Lines :=
+  C03K.k3_repaired
 
+/-- the recorded shape on which the statement without `NoK2` is false -/
 theorem k2_counterexample : (assembleMedia {} k2Lines).isOk = true ∧ (writeThenParse k2Lines).isOk = true ∧
     writeThenParse k2Lines ≠ assembleMedia {} k2Lines := C03K.k2_counterexample
 
